@@ -86,7 +86,7 @@ func runReader(format string, img []byte, want int, c *RCase, limit int, x *sim.
 	yield()
 	var rd io.Reader
 	x.Ev("open %s len=%d src=%+v rdict=%d single=%v", format, len(img), c.Src, c.RDict, c.Single)
-	res.OpenPanic = guard(func() { rd, res.OpenErr = openReader(format, src, c.RDict, c.Single) })
+	res.OpenPanic = guard(func() { rd, res.OpenErr = openReader(format, src.Reader(), c.RDict, c.Single) })
 	x.Step("api", 1)
 	x.Ev("open -> err=%v panic=%v srccalls=%d off=%d", res.OpenErr, res.OpenPanic != nil, src.Calls, src.Offset())
 	if res.OpenPanic != nil || res.OpenErr != nil {
@@ -272,6 +272,7 @@ func genSrcPlan(r *sim.Rng) simio.SourcePlan {
 		Frag:        sim.Pick(r, []string{"whole", "whole", "one", "seeded", "seeded"}),
 		FragSeed:    r.Uint64(),
 		EOFWithData: r.Bool(),
+		ByteReader:  r.Chance(1, 4),
 	}
 }
 
